@@ -189,6 +189,30 @@ def Life.survivors (l : Life) : List Call := l.W.take (if l.j ≤ 1 then l.k els
 def runLives (C : CommitMethod) (db : Db) (ls : List Life) : Db :=
   ls.foldl (fun db l => recover (crashFrom C db l.W l.k l.j)) db
 
+/-- the record a call binds -/
+def rowOf (c : Call) : Option Row :=
+  match callExec c with
+  | some (t, _) => some ⟨t, c.key, c.val⟩
+  | none => none
+
+/-- executable check that a workload writes every record after the record it points to (`dep`), against the
+    reference content `rows` reached so far -/
+def causalCheckFrom (dep : Nat → Nat → Option (Nat × Nat)) : List Row → List Call → Bool
+  | _, [] => true
+  | rows, c :: cs =>
+    (match rowOf c with
+      | some row =>
+        match dep row.table row.key with
+        | some d => hasKey rows d.1 d.2
+        | none => true
+      | none => true) && causalCheckFrom dep (specStep (rows, []) c).1 cs
+
+def causalCheck (dep : Nat → Nat → Option (Nat × Nat)) (W : List Call) : Bool := causalCheckFrom dep [] W
+
+/-- a dependency function given as a finite table ((table, key) ↦ (table, key)); absent = genesis -/
+def depOfList (deps : List ((Nat × Nat) × (Nat × Nat))) (t k : Nat) : Option (Nat × Nat) :=
+  (deps.find? (fun e => e.1 == (t, k))).map (·.2)
+
 /-- shape every insert must have: one INSERT (never OR REPLACE), then `self.commit()`, then return -/
 def wfInsertPath (ops : List Prim) : Bool :=
   match ops with
